@@ -390,9 +390,12 @@ func init() {
 // Index completeness and search exactness, the parts that sit in helpers of Index/Search:
 // (a) indexEvents visits every attribute of every event: its loops are left early only by a failing return;
 // (b) a further condition *intersects*: in the reduce loop over the candidate set an entry is deleted exactly
-//     when the current condition's match set (another map) has no entry for the same key;
+//
+//	when the current condition's match set (another map) has no entry for the same key;
+//
 // (c) query matching and range scans never drop a parse error: a value that does not parse must not be
-//     compared as zero (it would match `x < 5` or `x = 0`).
+//
+//	compared as zero (it would match `x < 5` or `x = 0`).
 func init() {
 	register("C19", "R7", "K9+K1", "indexers visit every event attribute; search conditions intersect by key; value parse errors are never dropped", 12, func(c *Ctx) {
 		w := c.W
